@@ -54,18 +54,6 @@ def GoTime.ISOWeek (t : GoTime) : G (Int × Int) :=
   let r := t.date.toModel.isoWeek
   pure (r.1, (r.2 : Int))
 
-/-- `float64` values of the translated code are small exact quotients (`float64(month) / 3`); modelled as rationals. -/
-structure F64 where
-  num : Int
-  den : Int
-  deriving Repr, Inhabited
-def f64OfInt (x : Int) : F64 := ⟨x, 1⟩
-def fdiv (a b : F64) : F64 := ⟨a.num * b.den, a.den * b.num⟩
-/-- `math.Ceil` -/
-def mathCeil (a : F64) : F64 := ⟨-((-a.num) / a.den), 1⟩
-/-- `int(f)` for an integral value -/
-def intOfF64 (a : F64) : Int := Int.tdiv a.num a.den
-
 /-- `strings.Split(s, sep)` for a one-character separator -/
 def stringsSplit1 (s : Str) (c : Char) : List Str :=
   let rec go : Str → Str → List Str
